@@ -1,4 +1,7 @@
+"""C07 = the world engine (per-step oracle `redelivery-changed-state`, model correspondence) + insertion pairs over whole
+histories (vlib/c07hist.py; Props/C07.lean `redelivery_invisible_multi` / `_partial`)."""
 from . import check_world
+from . import c07hist
 PROP = "C07"
 def run(tier, seed, t0, H):
-    return check_world.run(PROP, tier, seed, t0, H)
+    return check_world.run(PROP, tier, seed, t0, H, second_engine=c07hist.engine)
